@@ -355,9 +355,21 @@ func newCluster(o vClusterOpts) (*vCluster, error) {
 				return nil, err
 			}
 		} else {
-			if err := c.nodes[0].Store.Join(&proto.JoinRequest{Id: n.ID, Address: n.Addr, Voter: i < o.N}); err != nil {
+			// join through whoever is leader now (under load an election may have moved it)
+			var jerr error
+			for dl := time.Now().Add(20 * time.Second); time.Now().Before(dl); time.Sleep(100 * time.Millisecond) {
+				l := c.Leader(5 * time.Second)
+				if l == nil {
+					jerr = errors.New("no leader")
+					continue
+				}
+				if jerr = l.Store.Join(&proto.JoinRequest{Id: n.ID, Address: n.Addr, Voter: i < o.N}); jerr == nil {
+					break
+				}
+			}
+			if jerr != nil {
 				c.Close()
-				return nil, fmt.Errorf("join %s: %w", id, err)
+				return nil, fmt.Errorf("join %s: %w", id, jerr)
 			}
 			if _, err := n.Store.WaitForLeader(15 * time.Second); err != nil {
 				c.Close()
